@@ -24,6 +24,10 @@ use std::rc::Rc;
 #[path = "c07_macroman.rs"]
 mod macroman;
 pub use macroman::MAC_ROMAN_PY;
+// independent Big5 sample (Unicode, Big5 code) generated from Python's codec; the table C06 uses
+#[path = "c06_tables.rs"]
+mod c06_tables;
+pub use c06_tables::BIG5_SAMPLE;
 
 // ---- recording sink ---------------------------------------------------------------------------
 
@@ -121,6 +125,9 @@ pub struct Src {
     /// CFF: parsed by the minimal independent reader (None: not CFF or unreadable)
     pub cff: Option<cff_c07::Cff>,
     pub ast: RefCell<Option<Option<Rc<Vec<(Glyph, BBox)>>>>>,
+    /// generated Big5 / format 2 sources: (code, idDelta of its sub-header) of every zero entry of
+    /// the glyph index array (a "hole": a character inside a range that maps to the missing glyph)
+    pub big5_holes: Vec<(u32, u16)>,
     /// rule ids the independent validator reports on the source itself (tables copied verbatim
     /// into outputs inherit these; they are not attributed to allsorts)
     pub src_findings: RefCell<Option<BTreeSet<String>>>,
@@ -197,6 +204,7 @@ impl Src {
             os2_first_char,
             cff,
             ast: RefCell::new(None),
+            big5_holes: Vec::new(),
             src_findings: RefCell::new(None),
         })
     }
@@ -260,6 +268,8 @@ pub enum CmapScenario {
     Platform0,
     /// > 255 glyphs, every mapped character is Mac Roman / ASCII, with duplicates
     BigMacRomanChars,
+    /// the only cmap record is (3,4) Big5 with a format 2 subtable
+    Big5Format2,
 }
 
 /// Code points in runs of consecutive values separated by gaps of 1..=5 or by jumps.
@@ -370,7 +380,7 @@ fn dense_simple(rng: &mut Rng) -> ig::Simple {
 /// A generated TrueType font: composites (nested, forward references), numberOfHMetrics <=
 /// numGlyphs, a cmap per `scenario`, optional cvt/fpgm/prep/OS/2 with odd lengths.
 pub fn gen_font(rng: &mut Rng, quick: bool, want: Option<CmapScenario>) -> Option<(Src, GenInfo)> {
-    let scenario = want.unwrap_or_else(|| *rng.pick(&[CmapScenario::Bmp4, CmapScenario::Bmp4, CmapScenario::Astral12, CmapScenario::Symbol, CmapScenario::MacOnly, CmapScenario::Platform0, CmapScenario::BigMacRomanChars]));
+    let scenario = want.unwrap_or_else(|| *rng.pick(&[CmapScenario::Bmp4, CmapScenario::Bmp4, CmapScenario::Astral12, CmapScenario::Symbol, CmapScenario::MacOnly, CmapScenario::Platform0, CmapScenario::BigMacRomanChars, CmapScenario::Big5Format2]));
     let big = scenario == CmapScenario::BigMacRomanChars || rng.chance(1, 12);
     // "dense": several hundred glyphs of many points with small deltas, so that the compact glyf table
     // fits short loca offsets (< 131070 bytes) while an uncompacted re-serialisation (5 bytes per point,
@@ -494,6 +504,7 @@ pub fn gen_font(rng: &mut Rng, quick: bool, want: Option<CmapScenario>) -> Optio
     let mut records: Vec<icmap::Record> = Vec::new();
     let mut subtables: Vec<Vec<u8>> = Vec::new();
     let mut os2_first: Option<u16> = if rng.chance(2, 3) { Some(0x20) } else { None };
+    let mut big5_holes: Vec<(u32, u16)> = Vec::new();
     let nchars = if big { 60 + rng.below(200) } else { 1 + rng.below(3 * n + 20) };
     let mac_chars: Vec<u32> = MAC_ROMAN_PY.iter().copied().filter(|c| *c >= 0x20 && !mac_ambiguous_char(*c)).collect();
     let desc;
@@ -585,6 +596,86 @@ pub fn gen_font(rng: &mut Rng, quick: bool, want: Option<CmapScenario>) -> Optio
             }
             desc = format!("platform 0 ({} chars, astral {})", map.len(), astral);
         }
+        CmapScenario::Big5Format2 => {
+            let mut l = icmap::Layout2::default();
+            l.trim0 = rng.bool();
+            let pick_glyph = |rng: &mut Rng, d: u16| -> u16 {
+                for _ in 0..8 {
+                    let g = (1 + rng.below(n - 1)) as u16;
+                    if g != d {
+                        return g;
+                    }
+                }
+                0
+            };
+            // one-byte (ASCII) codes in sub-header 0
+            let d0 = if rng.chance(2, 3) { (1 + rng.below(n - 1)) as u16 } else { 0 };
+            l.deltas.insert(0, d0);
+            let k1 = rng.below(30);
+            for c in gen_codes(rng, 0x20, 0x7E, k1, None) {
+                let g = pick_glyph(rng, d0);
+                if g != 0 {
+                    l.single.insert(c as u8, g);
+                }
+            }
+            // lead bytes with ranges of trail bytes; codes outside the independent Big5 sample stay
+            // holes so that the expectation is complete
+            let mut by_lead: BTreeMap<u8, Vec<u8>> = BTreeMap::new();
+            for (_, code) in BIG5_SAMPLE {
+                by_lead.entry((*code >> 8) as u8).or_default().push((*code & 0xFF) as u8);
+            }
+            let leads: Vec<u8> = by_lead.keys().copied().collect();
+            let nlead = 1 + rng.below(6);
+            let mut nchars = l.single.len();
+            for _ in 0..nlead {
+                let hi = *rng.pick(&leads);
+                if l.double.contains_key(&hi) {
+                    continue;
+                }
+                let mut lows = by_lead[&hi].clone();
+                lows.sort();
+                let i = rng.below(lows.len());
+                let j = (i + rng.below(12)).min(lows.len() - 1);
+                let first = lows[i].saturating_sub(rng.below(4) as u8);
+                let last = lows[j].saturating_add(rng.below(4) as u8);
+                let d = if rng.chance(3, 4) { (1 + rng.below(n - 1)) as u16 } else { 0 };
+                let mut arr = Vec::new();
+                for lo in first..=last {
+                    let g = if lows.contains(&lo) && rng.chance(3, 4) { pick_glyph(rng, d) } else { 0 };
+                    if g != 0 {
+                        nchars += 1;
+                    }
+                    arr.push(g);
+                }
+                l.double.insert(hi, (first, arr));
+                l.deltas.insert(hi, d);
+                l.single.remove(&hi);
+            }
+            // holes: zero entries of the glyph index arrays
+            if d0 != 0 {
+                let keys: Vec<u8> = l.single.keys().copied().collect();
+                let (lo, hi) = match (l.trim0, keys.first(), keys.last()) {
+                    (true, Some(a), Some(b)) => (*a, *b),
+                    _ => (0x20, 0x7E),
+                };
+                for c in lo.max(0x20)..=hi.min(0x7E) {
+                    if !l.single.contains_key(&c) {
+                        big5_holes.push((c as u32, d0));
+                    }
+                }
+            }
+            for (hi, (first, arr)) in &l.double {
+                let d = l.deltas.get(hi).copied().unwrap_or(0);
+                for (k, g) in arr.iter().enumerate() {
+                    if *g == 0 && d != 0 {
+                        big5_holes.push((((*hi as u32) << 8) | (*first as u32 + k as u32), d));
+                    }
+                }
+            }
+            subtables.push(l.write(0));
+            records.push(icmap::Record { platform: 3, encoding: 4, subtable: 0 });
+            desc = format!("(3,4) Big5 format 2, {} lead bytes, {} chars, {} holes under a non-zero idDelta", l.double.len(), nchars, big5_holes.len());
+        }
         CmapScenario::BigMacRomanChars => {
             let ascii_only = rng.chance(1, 3);
             let allowed: Vec<u32> = if ascii_only { (0x20..0x7F).collect() } else { mac_chars.clone() };
@@ -657,6 +748,7 @@ pub fn gen_font(rng: &mut Rng, quick: bool, want: Option<CmapScenario>) -> Optio
         }
     }
     src.name = format!("generated[{} glyphs, nhm {}, {}{}]", n, nhm, desc, if dense { ", dense" } else { "" });
+    src.big5_holes = big5_holes;
     Some((src, GenInfo { scenario, desc }))
 }
 
@@ -1189,7 +1281,14 @@ pub fn source_char(c: u32, kind: EncKind, mac_target: bool, os2_first: Option<u1
                 None
             }
         }
-        EncKind::Big5 => None,
+        EncKind::Big5 => {
+            // ASCII bytes stand for themselves; double-byte codes through the independent sample
+            if c < 0x80 {
+                Some(c)
+            } else {
+                BIG5_SAMPLE.iter().find(|(_, b)| *b as u32 == c).map(|(u, _)| *u)
+            }
+        }
     }
 }
 
